@@ -44,7 +44,13 @@ static TasmanianSparseGrid make(int variant){
     std::vector<double> p = g.getNeededPoints(), v((size_t) g.getNumNeeded() * outs);
     for (int i = 0; i < g.getNumNeeded(); i++){ v[outs*i] = std::exp(p[2*i] - 0.3 * p[2*i+1]); v[outs*i+1] = p[2*i] * p[2*i+1]; }
     g.loadNeededValues(v);
-    if (variant >= 6){      /* a pending update that raises the largest 1-D level */
+    if (variant >= 8){      /* a grid under dynamic construction with samples waiting in the construction data */
+      g.beginConstruction();
+      bool local = (fam == "LocalPolynomial" || fam == "LocalPolynomialB" || fam == "Wavelet");
+      std::vector<double> c = local ? g.getCandidateConstructionPoints(1.E-4, refine_classic) : g.getCandidateConstructionPoints(type_level, 0);
+      for (size_t i = (variant == 8 ? 1 : 0); i + 1 < c.size() / 2; i += 2)
+        g.loadConstructedPoints(std::vector<double>{c[2*i], c[2*i+1]}, std::vector<double>{std::exp(c[2*i] - 0.3 * c[2*i+1]), c[2*i] * c[2*i+1]});
+    }else if (variant >= 6){      /* a pending update that raises the largest 1-D level */
       if (fam == "Global") g.updateGlobalGrid(5, type_level);
       else if (fam == "Sequence") g.updateSequenceGrid(5, type_level);
       else if (fam == "Fourier") g.updateFourierGrid(3, type_level);
@@ -85,7 +91,7 @@ static bool same(const TasmanianSparseGrid &a, const TasmanianSparseGrid &b, con
 }
 int main_replay(){
   int bad = 0;
-  for (int variant = 0; variant < 8; variant++) for (int binary = 0; binary < 2; binary++){
+  for (int variant = 0; variant < 10; variant++) for (int binary = 0; binary < 2; binary++){
     try{
       TasmanianSparseGrid g = make(variant), r;
       std::stringstream ss; g.write(ss, binary != 0); std::string first = ss.str();
@@ -96,7 +102,7 @@ int main_replay(){
       if (!ok){ bad++; std::printf("%s grid variant %d (%s): round trip FAILED\n", fam.c_str(), variant, binary ? "binary" : "ascii"); }
     }catch(std::exception &e){ bad++; std::printf("%s grid variant %d (%s): exception %s\n", fam.c_str(), variant, binary ? "binary" : "ascii", e.what()); }
   }
-  std::printf("%d of 16 round trips failed\n", bad);
+  std::printf("%d of 20 round trips failed\n", bad);
   __CPROVER_assert(bad == 0, "C06 write() then read() restores the observable state and the bytes");
   return 0;
 }
@@ -140,7 +146,7 @@ def jobs(tier, seed, prop):
     R0 = X.Rules()
     enums = tables.cut_enum("TypeOneDRule", R0)[0]
     helpers = _rule_helpers(R0)
-    for fam in (iotape.FAMS if prop not in ("C14", "C01") else []):
+    for fam in (iotape.FAMS if prop not in ("C14", "C01", "C17") else []):
         R = X.Rules()
         t, info = iotape.emit(R, fam)
         for mode in ("ascii", "binary"):
@@ -154,7 +160,7 @@ def jobs(tier, seed, prop):
                            label="Grid%s write<%s> / GridReaderVersion5 read round trip on the token tape" % (fam, mode)))
     # the clause of well_formed that the Global / Fourier harnesses assume about a pending refinement is established by updateGrid
     t2 = [t_ for k, a, t_ in cf.sections if k == "text2"][0]
-    for fam in (("Global", "Fourier") if prop != "C14" else ()):
+    for fam in (("Global", "Fourier") if prop not in ("C14", "C17") else ()):
         Ru = X.Rules()
         ut, uinfo = iotape.emit_update_invariant(Ru, fam)
         out.append(Job("iotape.wellformed.update." + fam, '#include "tsg_shim.h"\nint tsg_exc;\n#define UPDATE updateGrid_%s\n#line 1 "/verif/contracts/iotape.c"\n' % fam + t2 + ut + cf.text(("harness",), ["h_update_invariant"]),
@@ -162,7 +168,7 @@ def jobs(tier, seed, prop):
                        assumed=["selectTensors returns a non-empty set (any relation to the current tensors); clearRefinement / makeGrid leave no pending tensors; set difference and union as named",
                                 "setSurplusRefinement (Global with sequence rules) builds its pending set from the loaded points plus children: a superset by construction (not under this contract)"],
                        label="Grid%s::updateGrid leaves updated_tensors empty or a superset of tensors (well_formed clause used by the round trip)" % fam))
-    if prop not in ("C14", "C01"):
+    if prop not in ("C14", "C01", "C17"):
         Rm = X.Rules()
         mt, minfo = iotape.emit_rulemap(Rm)
         mh = '''
@@ -192,12 +198,21 @@ void h_rulemap(void){
     pre_t = '#include "tsg_shim.h"\nint tsg_exc;\n#line 1 "/verif/contracts/iotop.c"\n' + cft.text(("text",)) + tt
     for h, lab in (("h_top_roundtrip", "TasmanianSparseGrid::writeBinary / readBinary round trip of the framing (type, transforms, limits, construction flag)"),
                    ("h_top_badheader", "readBinary on a stream with a wrong header / version / unknown grid type")):
-        if prop == "C06" and h == "h_top_badheader": continue
+        if prop in ("C06", "C17") and h == "h_top_badheader": continue      # C17: the checkpoints of constructSurrogate are binary files, only their framing round trip is used
         if prop == "C14" and h == "h_top_roundtrip": continue
         out.append(Job("iotop." + h[6:], pre_t + cft.text(("harness",), [h]), h, timeout=120, replay=make_replay(prop, "LocalPolynomial") if h == "h_top_roundtrip" else None,
                        functions=["%s:%d %s" % (f["file"], f["line"], f["name"]) for f in tinfo["functions"]], info=tinfo,
                        assumed=["the family serializers are single tokens here (their round trip is the per-family jobs)", "ifs.read / IO::readNumber<char> deliver the bytes that were written (primitives assumed)"],
                        label=lab))
+    if prop == "C06":
+        Ra = X.Rules()
+        kws, at, ainfo = iotape.emit_top_ascii(Ra)
+        ta = [t_ for k, a, t_ in cft.sections if k == "text2"][0]
+        out.append(Job("iotop.roundtrip_ascii", '#include "tsg_shim.h"\nint tsg_exc;\n' + kws + '#line 1 "/verif/contracts/iotop.c"\n' + cft.text(("text",)) + ta + at + cft.text(("harness",), ["h_top_roundtrip_ascii"]), "h_top_roundtrip_ascii",
+                       unwind=4, timeout=120, replay=make_replay(prop, "LocalPolynomial"), functions=["%s:%d %s" % (f["file"], f["line"], f["name"]) for f in ainfo["functions"]], info=ainfo,
+                       assumed=["the family serializers are single tokens here (their round trip is the per-family jobs)", "a text line is one keyword token; operator>> and the family readers stop inside a line, getline returns the rest (empty) first",
+                                "the first two lines (version, warning) are outside this job"],
+                       label="TasmanianSparseGrid::writeAscii / readAscii round trip of the framing (type, transforms, limits, construction flag)"))
     if prop == "C14":
         Rv = X.Rules()
         vt, vinfo = iotape.emit_version_check(Rv)
